@@ -389,6 +389,8 @@ func TestVerifC01(t *testing.T) {
 			mk(p+"k2-write-faults/logging-transport", b(2, 3), c01Opts{k: 2, faults: true, readEnd: true, viaMCP: via, logged: true}, vs.Options{}),
 			mk(p+"k1-unmarshalable-params", b(2, 3), c01Opts{k: 1, badParams: true, closer: true, readEnd: true, viaMCP: via}, vs.Options{}),
 			mk(p+"k3-all", b(1, 2), c01Opts{k: 3, closer: true, cancel: true, faults: true, readEnd: true, viaMCP: via}, vs.Options{}),
+			// "for all numbers of concurrent calls": more callers at a smaller deviation budget
+			mk(p+"k5-cancel-close", b(0, 1), c01Opts{k: 5, closer: true, cancel: true, readEnd: true, viaMCP: via}, vs.Options{}),
 		)
 		if !q {
 			scs = append(scs,
